@@ -32,7 +32,7 @@ func runC15(c *core.Ctx) core.Meta {
 	// R15.1 SEND-DISCIPLINE
 	RunProto(c, &ProtoCfg{
 		AllEffectsAfterSend: true,
-		RuleBase:            "R15.1", Pkg: robPkg, FloorSends: 4,
+		RuleBase:            "R15.1", Pkg: robPkg, FloorSends: 3,
 		Effects: []Effect{
 			RetrieveEffect,
 			{Label: "list-insert", Consume: true, Match: func(n *core.Node) bool {
@@ -440,12 +440,68 @@ func runC15(c *core.Ctx) core.Meta {
 			c.ReportAt("R15.5", fn, fn.Pos(), "init-without-table-reset", "the transaction list is cleared without re-creating the ID lookup table: a late response for a discarded request still finds an entry")
 		}
 	}
+	// the handler group of a function that acknowledges on controlPort: the function itself and the
+	// functions of the package that call it and work on the control port themselves (the handler
+	// that peeked the message and delegates the acknowledgement to a helper)
+	usesCtrl := func(fn *ssa.Function) bool {
+		for _, b := range fn.Blocks {
+			for _, in := range b.Instrs {
+				if cc := core.CallOf(in); cc != nil && cc.IsInvoke() && portOfCall(in) == "controlPort" {
+					return true
+				}
+			}
+		}
+		return false
+	}
+	ctrlGroup := func(fn *ssa.Function) map[*ssa.Function]bool {
+		g := map[*ssa.Function]bool{fn: true}
+		for _, cand := range p.Funcs {
+			if !usesCtrl(cand) {
+				continue
+			}
+			for _, b := range cand.Blocks {
+				for _, in := range b.Instrs {
+					if cc := core.CallOf(in); cc != nil && cc.StaticCallee() == fn {
+						g[cand] = true
+					}
+				}
+			}
+		}
+		return g
+	}
+	var reachesInit func(fn *ssa.Function, d int) bool
+	reachesInit = func(fn *ssa.Function, d int) bool {
+		for _, f2 := range initFns {
+			if f2 == fn {
+				return true
+			}
+		}
+		if d >= 2 {
+			return false
+		}
+		for _, b := range fn.Blocks {
+			for _, in := range b.Instrs {
+				if cc := core.CallOf(in); cc != nil {
+					if cal := cc.StaticCallee(); cal != nil && cal.Pkg == fn.Pkg && reachesInit(cal, d+1) {
+						return true
+					}
+				}
+			}
+		}
+		return false
+	}
+	ctrlHandlers := map[*ssa.Function]bool{}
+	for _, fn := range p.Direct(func(in ssa.Instruction) bool { return SendOn(in, "controlPort") }) {
+		for h := range ctrlGroup(fn) {
+			ctrlHandlers[h] = true
+		}
+	}
 	// every discard/restart control message handler must clear: functions that send on controlPort
 	for _, fn := range p.Direct(func(in ssa.Instruction) bool { return SendOn(in, "controlPort") }) {
 		st5.Instances++
 		has := false
-		for _, f2 := range initFns {
-			if f2 == fn {
+		for h := range ctrlGroup(fn) {
+			if reachesInit(h, 0) {
 				has = true
 			}
 		}
@@ -469,12 +525,7 @@ func runC15(c *core.Ctx) core.Meta {
 			return
 		}
 		st5.Instances++
-		ok := false
-		for _, f2 := range p.Direct(func(in ssa.Instruction) bool { return SendOn(in, "controlPort") }) {
-			if f2 == fn {
-				ok = true
-			}
-		}
+		ok := ctrlHandlers[fn]
 		st5.Ob(ok)
 		if !ok {
 			c.ReportAt("R15.5", fn, in.Pos(), "isFlushing:writer", "isFlushing is written outside the control-message handlers")
